@@ -967,7 +967,9 @@ def gen_gff_attributes(rng, ctx):
 def gen_gff_entry(rng, ctx):
     start = rint(rng, 1, 10 ** pick(rng, [2, 4, 7]))
     end = start + pick(rng, [0, 1, 2, rint(rng, 0, 5000)])
-    score = pick(rng, [None, None, 0, 1, 1.0, 0.5, 1e-30, 3.25e15, -2.5, float(rng.random()), float(rng.normal() * 1e3)])
+    score = pick(rng, [None, None, 0, 1, 1.0, 0.5, 1e-30, 3.25e15, -2.5, float(rng.random()), float(rng.normal() * 1e3),
+                       # NumPy scalars (what a score computed from an array is); float32 only where str() is exact
+                       np.float64(rng.random()), np.float64(1e-30), np.float32(2.5), np.int64(7)])
     strand = pick(rng, [None, "F", "R"])
     phase = pick(rng, [None, 0, 1, 2])
     return (gen_gff_name(rng, ctx, "seqid"), gen_gff_name(rng, ctx, "source"), gen_gff_type(rng, ctx),
